@@ -50,6 +50,9 @@ inductive OpKind where
 deriving Repr
 
 structure Os where
+  /-- io_uring flavour of the operations (`PollAdd` waits in the kernel; the polling flavour of `PollOnce`
+      is only run after an event and always returns 0) -/
+  iour : Bool := false
   chans : Nat → Chan := fun _ => {}
   ops : Id → Option OpKind := fun _ => none
   /-- what an operation's buffer holds after completion -/
@@ -134,7 +137,14 @@ def perform (os : Os) (id : Id) : Option Res × Os :=
   | some (.readf c cap) => doReadAt os id c 0 cap
   | some (.write c data) => doPipeWrite os c data
   | some (.send c data) => doSend os c data
-  | some (.ponce _ _) => (some (.ok 0), os)
+  | some (.ponce c d) =>
+    if !os.iour then (some (.ok 0), os)
+    else
+      let ch := os.chans c
+      let ready := match d with
+        | .read => ch.readableNow || ch.hupNow
+        | .write => ch.writableNow || ch.hupNow
+      if ready then (some (.ok 0), os) else (none, os)
   | some (.job r) => (some r, os)
   | some (.readat c off cap) => doReadAt os id c off cap
   | some (.splice cin cout len) => doSplice os cin cout len
